@@ -50,6 +50,7 @@ ASSUMPTIONS = ["ECMAScript 2019+ string literal semantics in strict mode (U+2028
 
 def run(ctx):
     ctx.known_findings = lambda: _ops.merged_known(ctx, ID)
+    _ops.install_case_replays(ctx)
     return core.standard_run(ctx)
 
 
